@@ -126,8 +126,8 @@ PROPS = {
                  "empty-claimed positions disappear; unknown-position / non-positive-change calls and every error are no-ops. Model tied to the Go code by byte-exact differential run.",
  },
  "C08": {
-  "modules": ["OsmoVerif.Props.C08"],
-  "min_theorems": 38,
+  "modules": ["OsmoVerif.Props.C08", "OsmoVerif.Props.C08Inc"],
+  "min_theorems": 52,
   "fingerprints": ["CL.Keeper_*", "CL.SwapState_*"],
   "engines": [{"name": "clmath", "kind": "pure", "n": {"quick": 30000, "thorough": 400000}, "shards": {"quick": 2, "thorough": 16}},
               {"name": "cl", "kind": "app", "n": {"quick": 1500, "thorough": 20000}, "shards": {"quick": 4, "thorough": 16}, "env": NO_EXPORT_IMPORT}],
@@ -135,8 +135,9 @@ PROPS = {
           "partial/full withdraw, swaps of both kinds/directions from 1 unit to draining, spread-reward collects by owner and non-owner, transfers, directed sequences "
           "accrue -> partial withdraw / add / transfer -> (swap) -> claim on the same position, incentive records (authorised uptimes 1ns..1d, own denom each, start now or "
           "later), block-time advances incl. periods with zero active liquidity, incentive collects. After EVERY op the spread-reward state (accumulator, total shares, "
-          "growth-outside of every tick, every position record incl. unclaimed, GetClaimableSpreadRewards of every position, fee balances) is compared with the Lean model "
-          "(`clp fdump`); oracles after every op: spread no-loss (balance - claimable <= dust), incentives (paid+claimable <= in-range time x rate x share, remaining, unmet uptime), "
+          "growth-outside of every tick, every position record incl. unclaimed, GetClaimableSpreadRewards of every position, fee balances) and the uptime-incentive state (six "
+          "accumulators, tick uptime trackers, incentive records' remaining, every position's six uptime records, GetClaimableIncentives collected/forfeited, incentive balances, "
+          "LastLiquidityUpdate) are compared with the Lean model (`clp fdump`, `clp idump`); incentive ops are model ops (`clp incentive/advance/sync/icollect`); oracles after every op: spread no-loss (balance - claimable <= dust), incentives (paid+claimable <= in-range time x rate x share, remaining, unmet uptime), "
           "and the fairness/solvency oracles on every solvency pass; clmath: per-step growth arithmetic; distinct = distinct op lines",
   "trusted_base": ["osmoutils/accum as proved in C15", "cosmos-sdk bank", "C07 pool invariant (active liquidity, ticks = position boundaries, price-tick agreement)"],
   "assumptions": ["spread rewards: theorems over the state machine Model/CLFees.lean (= Model/CLPool.lean + accumulator, tick growth-outside, position records), tied to the keeper "
@@ -148,7 +149,14 @@ PROPS = {
                   "histories of fewer than 2 x scale >= 2e18 messages, under the hypothesis that the claim queries of the state succeed (no overflow/negative-Sub panic; observed always "
                   "on the keeper: C[..:err] never occurs); total shares = sum of liquidity and second claim = 0 for both scaling factors are theorems",
                   "PARTIAL: the dust bound in the other direction (balance - claimable <= bound in steps/claims) is not a theorem: oracle rewards:spread-lost:*",
-                  "PARTIAL: uptime incentive accumulators and the forfeit rule are not modelled in Lean: decided by the oracles incentives:* on the real keeper"],
+                  "uptime incentives: modelled in Model/CLInc.lean on top of CLFees (six uptime accumulators over DecCoins, tick uptime trackers, incentive records, position uptime records "
+                  "with join time, claim with forfeit, re-deposit), compared with the keeper after EVERY op (`clp idump`) in pools on both sides of the incentive scaling migration; "
+                  "theorems (Props/C08Inc): uptime growth inside = the same insideI function as spread rewards (grow / flip-on-crossing / keep laws reused; flips along a swap trace "
+                  "preserve it), credited x liquidity <= record decrease x scale per pass, records only decrease over histories and never exceed what was funded, no liquidity => no "
+                  "emission but LastLiquidityUpdate advances, unmet uptime => nothing collected, forfeits leave the incentive address only when < 1 unit of liquidity stays active, "
+                  "collect = claimable query, owner only, transfer changes nothing, the incentive layer is conservative over the fee layer",
+                  "PARTIAL: the history-level induction for the uptime accumulators (growth inside over whole histories, sum of paid + claimable <= emitted over histories, second "
+                  "incentive claim = 0) is not a theorem: oracles incentives:* on the real keeper"],
   "explanation": "history model FOp/applyF/runF over CLFees.Fees; the pool component of every message is exactly the CLPool operation (C07's Inv carries over); invariant FullInv "
                  "by induction; growth inside expressed as insideI(cur, G, out(lower), out(upper)) with three laws (grow, flip on crossing, keep in bucket) and the fold over the swap "
                  "step trace (TraceOK derived from C07's loop invariant); records and claims by unfolding the accumulator calls",
